@@ -107,6 +107,21 @@ def variants(r, df):
     return out
 
 
+def nan_variants(r, df):
+    """a frame with missing values in used columns, and the same frame under relabelled (non-unique)
+    indexes: which rows are dropped must not depend on the row labels"""
+    base = df.reset_index(drop=True).copy()
+    for c in ("x", "z"):
+        base[c] = base[c].astype(float)
+        for i in r.sample(range(len(base)), 2):
+            base.loc[i, c] = np.nan
+    a = base.copy()
+    a.index = [r.choice(["a", "b", "c"]) for _ in range(len(a))]
+    b = base.copy()
+    b.index = [i // 3 for i in range(len(b))]
+    return base, [("same", a, None), ("same", b, None)]
+
+
 def explore(tier, seed, res=None, replay=None):
     res = res or Result()
     res.rule = ("generated designs x (3 row permutations, non-unique string index, unsorted float "
@@ -150,6 +165,25 @@ def explore(tier, seed, res=None, replay=None):
                               "params_other": other["params"]})
                 meta.append((k, rule, part))
             res.nontrivial.add((formula, path, k))
+        # missing values + relabelled indexes
+        nbase_df, nvars = nan_variants(r, df)
+        nbase = snapshot(formula, nbase_df)
+        if "err" not in nbase:
+            for k, (rule, d2, sigma) in enumerate(nvars, start=100):
+                other = snapshot(formula, d2)
+                if "err" in other:
+                    res.failures.append({"case": {"formula": formula, "seed_path": path, "variant": k},
+                                         "impl": other, "expected": "same design", "finding": None,
+                                         "why": f"variant {k} (missing values, relabelled index) raises "
+                                                f"{other['err']}"})
+                    continue
+                for part in ("response", "common", "group"):
+                    if nbase["mats"][part] is None and other["mats"][part] is None:
+                        continue
+                    pairs.append({"rule": rule, "base": nbase["mats"][part], "other": other["mats"][part],
+                                  "sigma": [], "meta_base": nbase["meta"], "meta_other": other["meta"],
+                                  "params_base": nbase["params"], "params_other": other["params"]})
+                    meta.append((k, rule, part))
         reqs.append({"op": "c08_spec", "pairs": pairs})
         owners.append(({"formula": formula, "seed_path": path}, meta))
         res.traces += 1
